@@ -16,6 +16,7 @@ import (
 	"reflect"
 	"strconv"
 	"strings"
+	"unicode/utf8"
 	"time"
 
 	pb "github.com/google/go-tdx-guest/proto/tdx"
@@ -135,9 +136,15 @@ type factCtx struct {
 	pckFor map[int]bool
 }
 
+// hs renders a string fact.  The model carries names and URLs as strings and only ever compares them (with the constant
+// ASCII phrases of the source, and with each other); a Go string that is not valid UTF-8 (certificate names after random
+// byte mutation) is therefore replaced by an injective, valid stand-in: U+FFFD '!' followed by the hex of its bytes.
 func hs(s string) string {
 	if s == "" {
 		return "-"
+	}
+	if !utf8.ValidString(s) || strings.HasPrefix(s, "\uFFFD!") {
+		s = "\uFFFD!" + hex.EncodeToString([]byte(s))
 	}
 	return hex.EncodeToString([]byte(s))
 }
